@@ -24,6 +24,7 @@ CONSTANTS
   ResetSeparate = TRUE
   JumpToFirstAvailable = TRUE
   ReportOnlyIfBitSet = TRUE
+  ResendWithoutCheck = TRUE
 SPECIFICATION Spec
 VIEW View
 INVARIANTS C03_NoLostWake C04_BitsTrueWhenCalm
